@@ -36,8 +36,8 @@ from props.C09_doc import ref_skip
 
 LADDER = [0, 1, 2, 3, 7, 8, 9, 15, 16, 17, 31, 32, 33, 63, 64, 65, 127, 128, 129, 255, 256, 257, 1023, 1024, 1025, 4095, 4096, 4097,
           65533, 65534, 65535, 65536]
-MODEL_TEXT = 2100     # bytes of input up to which the extracted text model answers in ~0.1 s
-MODEL_BIN = 1100      # same for the binary lexer / reader models
+MODEL_TEXT = 600      # bytes of input up to which the extracted text model answers in ~10 ms (it is quadratic: 0.5 s at 8 KB, 6 s at 32 KB)
+MODEL_BIN = 600       # same for the binary lexer / reader models (0.3 s at 4 KB, 4-8 s at 16 KB)
 
 TAIL = b" q=1 {x} t"
 TAIL_TOKS = ["U:71", "OP:6", "U:31", "O", "U:78", "C", "U:74"]
@@ -156,9 +156,11 @@ def run_text(ctx):
         pats.append(bytes(w))
     rest_need = {}
     plan = []
-    for s_open in (0, 8):
-        for w in pats:
-            plan.append((s_open, 0, w, ["slice"] if (s_open == 0 or rng.random() < 0.7) else ["slice", 64]))
+    for w in pats:
+        plan.append((8, 0, w, ["slice"] if rng.random() < ctx.scale(0.9, 0.0) else ["slice", 64]))
+    # depth 1 at the chunk: the skip ends inside the chunk for most words (the bytewise tail decides)
+    for w in (pats if ctx.tier == "thorough" else rng.sample(pats, 1500)):
+        plan.append((0, 0, w, ["slice"]))
     for shift in range(1, 8):
         for w in rng.sample(pats, ctx.scale(120, 1500)) + [b"{" * 8, b"}" * 8, b"{}" * 4, b"}{" * 4]:
             plan.append((8, shift, w, [rng.choice(["slice", 16, 17, 64])]))
